@@ -211,9 +211,10 @@ theorem readRDataBody_ftriple (t : RType) (msg : Bytes) (p rdLen : Nat) (O : Opt
       FTriple.bind (FTriple.readName .heap msg _ _) (fun _ => FTriple.pure _)))
   | wks =>
     -- `rd_len - 5` cannot underflow: five bytes were just read inside a window of `rd_len` bytes
-    unfold readRDataBody
+    simp only [readRDataBody]
     refine CurM.triple_bind (Q := fun _ c => Frame msg (p + rdLen) O c ∧ c.pos = p + 4 ∧ p + 4 ≤ p + rdLen)
-      (CurM.rBe_triple msg _ O p 4 (by omega)) ?_
+      (CurM.triple_weaken (f := CurM.u32be msg) (CurM.rBe_triple msg (p + rdLen) O p 4 (by omega))
+        (fun c hc => hc) (fun _ c hc => hc) (fun c hc => hc.1)) ?_
     intro address
     refine CurM.triple_bind (Q := fun _ c => Frame msg (p + rdLen) O c ∧ p + 5 ≤ p + rdLen)
       (CurM.triple_weaken (CurM.u8_triple msg (p + rdLen) O (p + 4)) (fun c hc => ⟨hc.1, hc.2.1⟩)
@@ -224,12 +225,10 @@ theorem readRDataBody_ftriple (t : RType) (msg : Bytes) (p rdLen : Nat) (O : Opt
     simp only [hge, if_false]
     exact (FTriple.bind (FTriple.slice msg _ _ (rdLen - 5)) (fun _ => FTriple.pure _)) c hc.1
   | txt =>
-    unfold readRDataBody
+    simp only [readRDataBody]
+    refine CurM.triple_bind (Q := fun _ c => Frame msg (p + rdLen) O c) ?_ (fun _ => FTriple.pure _)
     intro c hc
     have := txtLoop_spec msg (p + rdLen) O rdLen #[] c hc.1 (by omega)
-    show match CurM.bind (txtLoop msg rdLen #[]) (fun text => Pure.pure (RData.txt text)) c with
-      | (.ok _, c') => _ | (.err _, c') => _ | (.panic _, _) => False | (.ub, _) => False
-    unfold CurM.bind
     cases hl : txtLoop msg rdLen #[] c with
     | mk r c' =>
       rw [hl] at this
@@ -265,26 +264,26 @@ theorem readRData_spec (t : RType) (msg : Bytes) (rdLen : Nat) (c : Cur) (h : Cu
       rw [hbody] at hb
       cases r with
       | ok rr =>
+        simp only at hb
         simp only
         unfold CurM.closeWindow CurM.lift0
         rcases Cur.closeWindow_spec c1 with ⟨o, ho1, hp1, hcw⟩ | ⟨e, hcw⟩
         · simp only [hcw, CurM.pure]
           have : o = c.lim := by
             have := hb.2.2; rw [ho1] at this; simpa using this
-          subst this
-          refine ⟨ho, ?_, rfl, rfl, hle⟩
-          simp only
-          rw [hp1, hb.2.1]
+          exact ⟨ho, by rw [hp1, hb.2.1], this, trivial, hle⟩
         · simp only [hcw]
           refine ⟨hb.1, ?_⟩
           simp only [Cur.full, hb.2.2, ho, Option.getD_some, Option.getD_none]
       | err e =>
+        simp only at hb
         simp only
         refine ⟨hb.1, ?_⟩
         simp only [Cur.full, hb.2.2, ho, Option.getD_some, Option.getD_none]
       | panic pk => exact hb
       | ub => exact hb
   · simp only [hw]
-    exact ⟨h, rfl⟩
+    refine ⟨h, ?_⟩
+    first | rfl | trivial
 
 end Rsdns
